@@ -37,6 +37,8 @@ class Iter(Op):
 
     def sibling(self, a, rng):
         m, rec, info = a
+        if rng.random() < 0.4:     # the same arguments under another calendar mode
+            return [(m2, r2, tuple(sorted(i2.items()))) for m2, r2, i2 in R.mode_siblings(m, rec, info, limit=1)]
         rec2, info2 = R.respell_rec(rng, m, rec, dict(info))
         return [(m, rec2, tuple(sorted(info2.items())))]
 
@@ -92,6 +94,57 @@ class Iter(Op):
         return not R.is_exact(info["interval"]) or (info["reps"] or 2) > 1
 
 
+class IterText(Iter):
+    """The same through text: str(r) read back by ONE long-lived TimeRecurrenceParser (as an application keeps
+    one), then iterated; sibling cases re-read the same text under another calendar mode."""
+    name = "ritertext"
+    sibling_rate = 0.6
+    _parser = None
+
+    def gen(self, rng, tier, boost):
+        n = 350 * boost if tier == "quick" else 3000 * boost
+        for _ in range(n):
+            m = gens.mode(rng)
+            rec, info = R.gen_rec(rng, m)
+            if not 0 <= info["anchor"][1] <= 9000:
+                continue
+            if rec[1] is not None and rec[3] is not None and not 0 <= rec[3][1] <= 9000:
+                continue
+            yield (m, rec, tuple(sorted(info.items())))
+
+    def sibling(self, a, rng):
+        m, rec, info = a
+        out = []
+        for m2 in T.OTHER_MODES[m][:2]:
+            if not all(t is None or T.valid(m2, t) for t in (rec[1], rec[3])):
+                continue
+            info2 = info
+            if rec[2] is None:
+                # start/second-point: the interval is the distance of the two points IN THAT CALENDAR
+                secs = T.inst(m2, rec[3]) - T.inst(m2, rec[1])
+                if secs < 0:
+                    continue
+                d2 = dict(info)
+                d2["interval"] = ("U", 0, 0, secs // 86400, 0, 0, secs % 86400)
+                info2 = tuple(sorted(d2.items()))
+            out.append((m2, rec, info2))
+        return out
+
+    def impl(self, a):
+        from metomi.isodatetime.parsers import TimeRecurrenceParser
+        set_mode(a[0])
+        text = str(R.mk_rec(a[1]))
+        if IterText._parser is None:
+            IterText._parser = TimeRecurrenceParser()
+        rec = IterText._parser.parse(text)
+        pts = []
+        for p in rec:
+            pts.append(p)
+            if len(pts) >= K:
+                break
+        return R.canon_pts(pts)
+
+
 def defect_series(m, info, k):
     """What the recorded defect F5 produces: the far bound is derived by ONE addition of the
     interval multiplied by (n - 1); the points are then repeated additions from the near end while
@@ -112,7 +165,7 @@ def defect_series(m, info, k):
 
 def _f5(op, a, out, msg):
     info = dict(a[2])
-    if not (op.name == "riter" and not R.is_exact(info["interval"]) and info["reps"] is not None
+    if not (op.name in ("riter", "ritertext") and not R.is_exact(info["interval"]) and info["reps"] is not None
             and info["reps"] >= 2 and info["fmt"] in (3, 4)):
         return False
     try:
@@ -208,4 +261,4 @@ class Mk(Op):
 
 def ops():
     import recmm
-    return [Iter(), Notations(), Mk(), recmm.RecMMOp(PROP, "mmiter", ["mmrmk", "mmriter", "mmriter", "mmriter"], 500)]
+    return [Iter(), IterText(), Notations(), Mk(), recmm.RecMMOp(PROP, "mmiter", ["mmrmk", "mmriter", "mmriter", "mmriter"], 500)]
